@@ -264,7 +264,7 @@ def build_flavour(name, log=sys.stderr):
     return ar
 
 
-def build_portable_encoding(log=sys.stderr):
+def build_portable_encoding(log=sys.stderr, flavour="asan"):
     """encoding.c without USE_SIMD_ENCODING, exported symbols renamed pt_*, so that the portable
     base64 code links next to the SIMD build (C05 code-path independence)."""
     src = os.path.join(REPO, "source/encoding.c")
@@ -274,14 +274,15 @@ def build_portable_encoding(log=sys.stderr):
            "aws_utf8_skip_bom", "aws_utf8_decoder_new", "aws_utf8_decoder_destroy", "aws_utf8_decoder_reset",
            "aws_utf8_decoder_update", "aws_utf8_decoder_finalize", "aws_decode_utf8",
            "aws_text_detect_encoding", "aws_text_is_utf8", "aws_text_is_valid_utf8", "aws_common_private_base64_decode_sse41"]
-    fl = FLAVOURS["asan"]
+    fl = FLAVOURS[flavour if flavour == "gcc-asan" else "asan"]
     flags = list(fl["c"]) + ["-std=gnu99", "-w"] + [d for d in DEFINES if d != "-DUSE_SIMD_ENCODING"]
     flags += ["-D%s=pt_%s" % (s, s) for s in ren]
-    key = sha(" ".join(flags), file_digest(src), header_digest())
+    cc = fl.get("cc", CC)
+    key = sha(cc + " " + " ".join(flags), file_digest(src), header_digest())
     obj = os.path.join(BUILD, "obj", "enc-portable-%s.o" % key)
     if not os.path.exists(obj):
         os.makedirs(os.path.dirname(obj), exist_ok=True)
-        rc, o = _compile_one(([CC] + flags + includes() + ["-c", src], obj))
+        rc, o = _compile_one(([cc] + flags + includes() + ["-c", src], obj))
         if rc != 0:
             log.write(o)
             raise SystemExit("BUILD-ERROR: portable encoding.c failed to compile")
@@ -346,7 +347,7 @@ def build_target(t, log=sys.stderr):
     src = os.path.join(ROOT, t["src"])
     extra = []
     if t.get("portable_encoding"):
-        extra.append(build_portable_encoding(log))
+        extra.append(build_portable_encoding(log, t["flavour"]))
     for rel in t.get("gcc_objects", []):
         extra.append(build_gcc_object(rel, log))
     for rel in t.get("gcc_harness_objects", []):
